@@ -353,6 +353,11 @@ pub fn concretize(a: &Value) -> Model {
             },
         });
     }
+    for w in ga(a, "walls") {
+        if let Some(u) = gof(w, "uov", 1e4) {
+            m.overrides.walls.insert(uuid_of(gi(w, "id")), WallPropsOverrides { u_value: Some(u) });
+        }
+    }
     for w in ga(a, "windows") {
         let area = gf(w, "area", 1e4, 1.0);
         m.windows.push(Window {
